@@ -11,7 +11,7 @@ simulations with the twin riding along."""
 import warnings
 import numpy as np
 from vlib import env, gen
-from vlib.oracles import loguniform, random_unit, quat_to_mat
+from vlib.oracles import loguniform, random_unit, quat_to_mat, dense
 
 ID = "C26"
 LEVEL = "exploration"
@@ -41,6 +41,7 @@ META = {
 CASE_TIMEOUT = 600
 WALL_BUDGET = {"quick": 900, "thorough": 5400}
 
+KF_STALE = "CosseratRod.set_reference_strains/precomputed-matrices-stale"
 ROD_KINDS = [("Quaternion", 1), ("Quaternion", 2), ("SE3", 1), ("R12", 1), ("R12", 2)]
 S2S_PAIRS = [("rigid_body", "rigid_body"), ("rigid_body", "point_mass"), ("moving_frame", "rigid_body"), ("point_mass", "point_mass"),
              ("rotating_frame", "rigid_body")]
@@ -318,6 +319,21 @@ def run_rod(spec, ctx, ct, log):
                 elif op == "set_reference_strains":
                     rod.set_reference_strains(q.copy())
                     ctx.mon("STATE:set_reference_strains")
+                    # the matrices a rod keeps from its last assembly (mass, compliance) belong to the stored evaluations as well:
+                    # compared with the same rod after its assembly callback was run again (= evaluation without the stored copy)
+                    import copy as _copy
+                    fresh = _copy.deepcopy(rod); fresh.assembler_callback()
+                    for nm_, args_ in (("M", (t, q)),) + ((("c_la_c", ()),) if spec["mixed"] else ()):
+                        try:
+                            a_, b_ = dense(getattr(rod, nm_)(*args_)), dense(getattr(fresh, nm_)(*args_))
+                        except Exception:
+                            continue
+                        ctx.mon("STATE:stored_matrices")
+                        if a_.shape != b_.shape or np.abs(a_ - b_).max() > 1e-11 * (1 + np.abs(b_).max()):
+                            ctx.violation(f"rod.{nm_}", "matrix kept from the last assembly differs from its re-evaluation after a reference-strain update",
+                                          {"formulation": f"{spec.get('interp')}{spec.get('p')}/{'mixed' if spec['mixed'] else 'disp'}", "max_abs_difference": float(np.abs(a_ - b_).max()), "max_entry": float(np.abs(b_).max())},
+                                          key=KF_STALE)
+                            break
                 else:
                     S.assemble(options=gen.no_cic_options())
                     ctx.mon("STATE:reassemble")
